@@ -27,6 +27,9 @@ type Mon struct {
 	N    *fix.Node
 	M    *ledger.Model
 	Arb  bool
+	// an earlier state of the node's address index (rows, recorded height) for rebuild mode 3
+	oldIdxK, oldIdxV [][]byte
+	oldIdxH          []byte
 }
 
 // H is one history being executed
@@ -287,6 +290,7 @@ func setFloors(r *vf.Run, prop string) {
 	case "C07":
 		r.Floor("views.sweeps", 20)
 		r.Floor("views.rebuild", 1)
+		r.Floor("views.rebuild.mode3", 10)
 	}
 }
 
@@ -308,6 +312,11 @@ func (h *H) Run(nSteps int) {
 		h.R.Eval(1)
 		h.resyncMirror()
 		h.publishIDs()
+		if h.Prop == "C07" && (s == nSteps/4 || s == nSteps/2 || s == 3*nSteps/4) {
+			// more index rebuilds when the views are decided: the second and third find an
+			// earlier index state to fall back to
+			h.stepReopen(h.pick())
+		}
 		h.step()
 		if h.R.Violations() > 20 {
 			return
